@@ -263,13 +263,13 @@ Result apply_patch(File& out_file, RejectWriter& reject_writer, const std::vecto
     for (size_t hunk_num = 0; hunk_num < patch.hunks.size(); ++hunk_num) {
         auto& hunk = patch.hunks[hunk_num];
 
-        auto location = locate_hunk(lines, hunk, options.ignore_whitespace, offset_error, options.max_fuzz);
+        auto location = locate_hunk(lines, hunk, options.ignore_whitespace, offset_error, options.max_fuzz, line_number);
 
         // POSIX specifies that until a hunk successfully applies, patch should check if the patch given is reversed.
         if (hunk_num == 0 && should_check_if_patch_is_reversed(location, options)) {
             // The first hunk is not applying perfectly. We need to verify whether it looks reversed.
             reverse(hunk);
-            auto reversed_location = locate_hunk(lines, hunk, options.ignore_whitespace, offset_error, options.max_fuzz);
+            auto reversed_location = locate_hunk(lines, hunk, options.ignore_whitespace, offset_error, options.max_fuzz, line_number);
 
             // Consider the patch potentially reversed if:
             //  * The reversed hunk applied perfectly.
